@@ -30,7 +30,7 @@ ASSUMPTIONS = [
 OUTSIDE = ["float32 storage of the state", "horseshoe blocks _prec_V2/_prec_V1/_prec_V0 beyond 'visited once, in order'",
            "non-default options (fake_intercept=False, mult_gamma_proc=False)", "the interaction model's sampler", "convergence / mixing"]
 RULE = "one path per data structure (solver-enumerated ids); all real quantities symbolic; every obligation is a polynomial / rational identity decided by z3 (nlsat after purification when needed)."
-BUDGET_S = {"quick": 400, "thorough": 2400}
+BUDGET_S = {"quick": 600, "thorough": 3000}
 TASK_QUOTA = 12
 NUMERIC_FIRST = 3
 FAST_REAL = True  # obligations are first tried from their cone of influence only (sound: fewer hypotheses)
